@@ -514,6 +514,35 @@ theorem reachable_hinv {s : State} (h : Reachable s) : Ok s (HInv s) := by
 theorem reachable_inv_partial {s : State} (h : Reachable s) : s.outOfFuel = true ∨ Inv [] [] none s :=
   (reachable_hinv h).map (fun hi => hi.inv)
 
+/-- `scaledTime` is the clock of the last frame, which is not ahead of the clock — with or without fuel -/
+theorem reachable_scaled {s : State} (h : Reachable s) : s.scaled = s.lastClock ∧ s.lastClock ≤ s.clock := by
+  induction h with
+  | init => exact ⟨rfl, Nat.le_refl _⟩
+  | @step s0 op _ _ ih =>
+    have key : ∀ {a b : State}, HR a b → (a.scaled = a.lastClock ∧ a.lastClock ≤ a.clock) →
+        (b.scaled = b.lastClock ∧ b.lastClock ≤ b.clock) := by
+      intro a b hr e
+      have hc := hr.ht.c3
+      simp only [Prod.mk.injEq] at hc
+      rw [hc.1, hc.2.1, hc.2.2]; exact e
+    have hex : ∀ a : State, (a.scaled = a.lastClock ∧ a.lastClock ≤ a.clock) →
+        ((hostExecute a).scaled = (hostExecute a).lastClock ∧ (hostExecute a).lastClock ≤ (hostExecute a).clock) := by
+      intro a e
+      rw [hostExecute_eq]
+      refine key (((processEvents_hr defaultFuel (frameSetTime a))).trans ((hrAll defaultFuel).er _)) ⟨?_, Nat.le_refl _⟩
+      show a.scaled + (a.clock - a.lastClock) = a.clock
+      omega
+    cases op with
+    | reset => exact ⟨rfl, Nat.le_refl _⟩
+    | script p ps => exact key (hostScript_hr _ p ps) ih
+    | call l args => exact key (hostCall_hr _ l args) ih
+    | callv l => exact key (hostCallV_hr _ l) ih
+    | advance k => exact ⟨ih.1, Nat.le_trans ih.2 (Nat.le_add_right _ _)⟩
+    | resetDirector => exact key (hostReset_hr _) ih
+    | execute => exact hex _ ih
+    | step k => exact hex ({ s0 with clock := s0.clock + k }) ⟨ih.1, Nat.le_trans ih.2 (Nat.le_add_right _ _)⟩
+    | takeOut => exact ih
+
 /-- the timer's `m_time` is the clock of the last frame — without `save`/`load`, with or without fuel -/
 theorem reachable_mtime {s : State} (h : Reachable s) : s.timer.mtime = s.lastClock := by
   induction h with
